@@ -42,8 +42,9 @@
 (* Bounded configurations: Spec enumerates every sequence of <= GMaxLines  *)
 (* lines over a palette (status lines of all branches, duplicates with     *)
 (* different arguments, near-headers, other lines); LSpec every single     *)
-(* line of <= GMaxLen tokens.  Invariants: ImplRefines, LastWins,          *)
-(* ValidIffSig, NonStatusIgnored, LineRefines.                             *)
+(* line of <= GMaxLen tokens that begins with "[GNUPG:] " and every other  *)
+(* line of <= GShort tokens.  Invariants: ImplRefines, LastWins,           *)
+(* ValidIffSig, NonStatusIgnored, StmtFoldIsRefMap, LineRefines.           *)
 (*                                                                         *)
 (* Spec-level negative controls (each tried; x05.py re-runs them):         *)
 (*   ArglessQuirk = TRUE  (no argument: find(' ') = -1 cuts the last       *)
@@ -151,22 +152,34 @@ GImpl(line, quirk) ==
 \* mappings as functions on a finite set of keys
 EmptyMap == [x \in {} |-> <<>>]
 Put(m, key, val) == [x \in DOMAIN m \cup {key} |-> IF x = key THEN val ELSE m[x]]
-ImplStep(m, line, quirk) ==
-   LET o == GImpl(line, quirk)
-   IN IF o.k # "store" THEN m
-      ELSE IF FirstWins /\ o.key \in DOMAIN m THEN m
-      ELSE Put(m, o.key, o.val)
+\* one step of a reader: o is what the line contributes
+MapStep(m, o) ==
+   IF o.k # "store" THEN m
+   ELSE IF FirstWins /\ o.key \in DOMAIN m THEN m
+   ELSE Put(m, o.key, o.val)
+ImplStep(m, line, quirk) == MapStep(m, GImpl(line, quirk))
 RECURSIVE ImplMapFrom(_, _, _, _)
 ImplMapFrom(m, ls, k, quirk) == IF k > Len(ls) THEN m ELSE ImplMapFrom(ImplStep(m, ls[k], quirk), ls, k + 1, quirk)
 ImplMap(ls, quirk) == ImplMapFrom(EmptyMap, ls, 1, quirk)
+\* the statement read operationally (later occurrences overwrite earlier ones); StmtFoldIsRefMap
+\* ties it to the declarative RefMap below -- the trace module uses it for inputs of 1000+ lines
+RECURSIVE StmtFoldFrom(_, _, _)
+StmtFoldFrom(m, ls, k) ==
+   IF k > Len(ls) THEN m
+   ELSE LET o == GStmt(ls[k])
+        IN StmtFoldFrom(IF o.k = "store" THEN Put(m, o.key, o.val) ELSE m, ls, k + 1)
+StmtFold(ls) == StmtFoldFrom(EmptyMap, ls, 1)
 
 \* statement for a whole input (declarative): the last storing occurrence of every keyword
-StoreIdx(ls)  == {k \in 1..Len(ls) : GStmt(ls[k]).k = "store"}
+\* (st: what every line contributes, computed once)
+StmtSeq(ls)   == [k \in 1..Len(ls) |-> GStmt(ls[k])]
+StoreIdxOf(st) == {k \in 1..Len(st) : st[k].k = "store"}
 GDecided(ls)  == \A k \in 1..Len(ls) : GStmt(ls[k]).k # "unspec"
-GKeys(ls)     == {GStmt(ls[k]).key : k \in StoreIdx(ls)}
-LastOf(ls, key) == CHOOSE k \in StoreIdx(ls) : /\ GStmt(ls[k]).key = key
-                                               /\ \A j \in StoreIdx(ls) : GStmt(ls[j]).key = key => j <= k
-RefMap(ls)    == [key \in GKeys(ls) |-> GStmt(ls[LastOf(ls, key)]).val]
+GKeysOf(st)   == {st[k].key : k \in StoreIdxOf(st)}
+GKeys(ls)     == GKeysOf(StmtSeq(ls))
+LastOfSt(st, key) == CHOOSE k \in StoreIdxOf(st) : /\ st[k].key = key
+                                                   /\ \A j \in StoreIdxOf(st) : st[j].key = key => j <= k
+RefMap(ls)    == LET st == StmtSeq(ls) IN [key \in GKeysOf(st) |-> st[LastOfSt(st, key)].val]
 RefValid(ls)  == GoodSig \in GKeys(ls) \/ ValidSig \in GKeys(ls)
 ImplValid(m)  == IF ValidAny THEN DOMAIN m \cap (UidKeys \cup {ValidSig}) # {}
                  ELSE GoodSig \in DOMAIN m \/ ValidSig \in DOMAIN m
@@ -238,11 +251,14 @@ GTypeOK == LWellTok(gline) /\ \A k \in 1..Len(glines) : glines[k] \in GPalette
 
 \* the automaton computes the declared mapping (inputs the statement decides)
 ImplRefines == GDecided(In) => gmap = RefMap(In)
+StmtFoldIsRefMap == StmtFold(In) = RefMap(In)
 \* ... which maps every stored keyword to the arguments of its last occurrence, and nothing else
-LastWins == \A key \in DOMAIN RefMap(In) :
-               /\ \E k \in 1..Len(In) : GStmt(In[k]) = GStore(key, RefMap(In)[key])
-                                        /\ \A j \in (k + 1)..Len(In) : GStmt(In[j]).k = "store" => GStmt(In[j]).key # key
-               /\ key \notin Ignored
+LastWins == LET st == StmtSeq(In)
+                rm == RefMap(In)
+            IN \A key \in DOMAIN rm :
+                  /\ \E k \in 1..Len(st) : st[k] = GStore(key, rm[key])
+                                           /\ \A j \in (k + 1)..Len(st) : st[j].k = "store" => st[j].key # key
+                  /\ key \notin Ignored
 ValidIffSig == GDecided(In) => (ImplValid(gmap) <=> RefValid(In))
 \* lines that are not status lines change nothing
 NonStatusIgnored == \A k \in 1..Len(In) : ~IsStatus(In[k]) => GImpl(In[k], TRUE) = GSkip
@@ -252,6 +268,7 @@ LineRefines == /\ GStmt(One).k # "unspec" => GImpl(One, ArglessQuirk) = GStmt(On
 
 ----------------------------------------------------------------------------
 \* emission (spec -> code); imap / impl: the code as it is (with the argless quirk)
+EmitPal  == (GEmit /\ glines = <<>>) => PrintT(<<"GPAL", ToJson([n \in 1..Len(GPal) |-> PalLine(n)])>>)
 EmitCase == GEmit => PrintT(<<"GCASE", ToJson([ix |-> glines, decided |-> GDecided(In),
                                               map |-> MapEntries(RefMap(In)), valid |-> RefValid(In),
                                               imap |-> MapEntries(ImplMap(In, TRUE)),
